@@ -269,6 +269,7 @@ theorem c20_raising_callback_changes_nothing (env : Env ν) (st : Store ν) (op 
     cases hi : st.genomes[i]? with
     | none => rw [step_noid rfl hi] at hr; cases hr
     | some g => rw [step_assign hi] at hr; cases hr
+  | stats i => rw [step_stats_store]
 
 /-- **A refused rollback is logged as unapproved**: if the gene has an approved mutation to roll back and
     `rollback_mutation` returns `False`, exactly one unapproved entry (this gene, current value → the value
@@ -562,6 +563,35 @@ theorem c20_diff_exact (env : Env ν) (g h : Genome ν) (n : Nat) (a b : Option 
     · rcases hm with hm | hm
       · exact absurd hm hg
       · exact Or.inr ⟨hm, hg⟩
+
+/-- **`get_statistics` counts what the log says** (the property's observation point `approved_mutations`): it changes
+    nothing; `mutations_count` is the length of the log and `approved_mutations` the number of its approved entries.
+    A refused `mutate` raises `mutations_count` by one and leaves `approved_mutations` alone; an authorised one raises
+    both by one. -/
+theorem c20_statistics_exact (env : Env ν) (st : Store ν) (i n : Nat) (v : ν) (g : Genome ν) (og : Gene ν)
+    (hi : st.genomes[i]? = some g) (hf : findGene g.genes n = some og) :
+    step env st (.stats i) = (st, .statistics (stats g)) ∧
+    (stats g).mutations = g.log.length ∧ (stats g).approved = (g.log.filter (·.approved)).length ∧
+    (stats g).total = g.genes.length ∧
+    ∀ b, (step env st (.mutate i n v)).2 = .ret b →
+      ∃ g', (step env st (.mutate i n v)).1.genomes[i]? = some g' ∧ (stats g').mutations = (stats g).mutations + 1 ∧
+        (stats g').approved = (stats g).approved + (if b then 1 else 0) ∧ (stats g').total = (stats g).total := by
+  refine ⟨step_stats hi, rfl, rfl, rfl, ?_⟩
+  intro b hb
+  cases hm : mutate env st.calls g n v .user with
+  | raised k => rw [step_mutate_raised hi hm] at hb; cases hb
+  | done g' b' k =>
+    rw [step_mutate_done hi hm] at hb ⊢
+    cases hb
+    obtain ⟨hnames, -, hcase⟩ := mutate_done_spec hm
+    refine ⟨g', by simpa using getElem?_set_of_some (i := i) (a := g') hi, ?_⟩
+    rcases hcase with ⟨hnone, -, -⟩ | ⟨og', -, hlog, -⟩
+    · rw [hf] at hnone; cases hnone
+    · have hlen : g'.genes.length = g.genes.length := by
+        have := congrArg List.length hnames; simpa using this
+      simp only [stats, hlog, hlen, List.length_append, List.length_cons, List.length_nil, List.filter_append,
+        true_and, and_true]
+      cases b <;> simp [List.filter]
 
 /-! ## Clause 6 — rollback -/
 
